@@ -182,11 +182,14 @@ PATHS = ["ctrlrun.work", "ctrlrun.work2", "ctrlrun.notcoro", "ctrlrun.slow", "ct
 
 def draw_value(rng, dest, conv):
     if conv == "int":
+        if rng.random() < 0.12:      # unusual but valid spellings of an int
+            return rng.choice(["+3", "1_0", "-0", "007", "+0"])
         return str(rng.choice([0, 1, 2, 3, 5, -1, 7, 10]))
     if conv == "float":
         return rng.choice(["0.5", "2", "1e3", "3.25"])
     if conv == "str":
-        return rng.choice(["g1", "g2", "user", "x_y", "apply-work-group-0", "map-work-group-0", "A"])
+        return rng.choice(["g1", "g2", "user", "x_y", "apply-work-group-0", "map-work-group-0", "A",
+                           "\tg1", "g\t2", "x=y", "\u00e9t\u00e9"])
     if conv == "literal":
         return rng.choice(LIT.get(dest, ["[1,2]", "(1,)", "{'a':1}", "7"]))
     if conv == "path":
@@ -237,7 +240,7 @@ def job_c17(clsname, seed, count, replay_calls=None):
     else:
         weights = [3 if c in ("apply", "map", "starmap", "doublestarmap", "start", "cancel", "stop",
                               "pool-size", "hello", "many", "label", "halt", "ratio", "runJob", "maxLoad",
-                              "info", "INFO", "scale", "collect", "call-me", "level") else 1 for c in cmds]
+                              "info", "INFO", "scale", "collect", "call-me", "level", "limit", "tagged") else 1 for c in cmds]
         calls = []
         for _ in range(count):
             c = rng.choices(cmds, weights)[0]
@@ -312,6 +315,7 @@ def job_c17(clsname, seed, count, replay_calls=None):
 
 # ---------------------------------------------------------------------------------- C18
 VOCAB_EXTRA = ["-h", "--help", "--", "-", "-x", "--nope", "=", "--msg=", "1", "-1", "0", "999999999999999999999",
+               "\ufeff", "\ufeffpool-size", "\u200f", "e\u0301",
                "1.5", "abc", "None", "True", "[1,2]", "(", "'", '"', "ctrlrun.work", "no.such.path", "é", "日本",
                "\t", "a" * 300, "--return-exceptions", "-r", "--group-name", "-g", "--num", "-n"]
 
@@ -339,9 +343,9 @@ def draw_line(rng, table):
             ["map", rng.choice(bad_path), "[1,2]"],
             ["apply", "ctrlrun.work", "--end-callback", rng.choice(bad_path)],
             ["cancel", rng.choice(["x", "1.0", "[1]", ""])],
-            ["pool-size", rng.choice(["x", "1.5", "", "None"])],
+            ["pool-size", rng.choice(["x", "1.5", "", "None", "inf", "1e999", "0x10", "+inf", "nan", "Infinity"])],
             ["stop", rng.choice(["x", "2.5", ""])],
-            ["start", rng.choice(["x", "1e3", ""])],
+            ["start", rng.choice(["x", "1e3", "", "inf", "0b1"])],
         ])
         return " ".join(shape)
     if x < 0.66:     # help requests
@@ -421,7 +425,9 @@ def job_c18(clsname, seed, count, two_sessions=False, replay_lines=None):
                 continue
             kinds[kind] += 1
             before = ctrlrun.pool_obs(A)
-            chunks = await s.send(line, rounds=20)
+            # framing: CRLF line ends, leading / trailing tabs and blanks are not part of the line
+            pre, suf = [("", ""), ("", "\r"), ("", ""), ("\t", " \t"), (" ", "\r")][i % 5]
+            chunks = await s.send(pre + line + suf, rounds=20)
             after = ctrlrun.pool_obs(A)
             n_checks += 1
             got = b"".join(chunks).decode()
@@ -566,7 +572,7 @@ def jobs(pid, tier, seed):
     elif pid == "C17":
         n, cnt = (16, 40) if tier == "quick" else (96, 120)
         for k in range(n):
-            c = ["TaskPool", "SimpleTaskPool", "SubA", "SubB", "TaskPool", "SubC", "SubE", "TaskPool"][k % 8]
+            c = ["TaskPool", "SimpleTaskPool", "SubA", "SubB", "TaskPool", "SubC", "SubE", "SubD"][k % 8]
             js.append(("prop_ctrl", "job_c17", {"clsname": c, "seed": base + k, "count": cnt}))
     elif pid == "C18":
         n, cnt = (16, 60) if tier == "quick" else (96, 200)
